@@ -19,6 +19,7 @@ type TypeSpec struct {
 	Patterns []string    `json:"patterns,omitempty"`
 	PatMsg   string      `json:"pat_msg,omitempty"`
 	Enums    []string    `json:"enums,omitempty"`
+	EnumStat []string    `json:"enum_status,omitempty"` // status of the enum at the same index ("" = none written)
 	FD       int         `json:"fd,omitempty"`
 	Base     string      `json:"base,omitempty"`
 	Path     string      `json:"path,omitempty"`
@@ -237,8 +238,12 @@ func (x *w) typ(d int, t *TypeSpec) {
 			x.ln(d+1, "pattern %s;", q(p))
 		}
 	}
-	for _, e := range t.Enums {
-		x.ln(d+1, "enum %s;", q(e))
+	for i, e := range t.Enums {
+		if i < len(t.EnumStat) && t.EnumStat[i] != "" {
+			x.ln(d+1, "enum %s { status %s; }", q(e), t.EnumStat[i])
+		} else {
+			x.ln(d+1, "enum %s;", q(e))
+		}
 	}
 	if t.Base != "" {
 		x.ln(d+1, "base %s;", t.Base)
